@@ -220,9 +220,11 @@ void check_c17(Tape& t, Ctx& ctx) {
       if (std::fabs(Tq - 1.0) <= pow2i(-20)) { ctx.nontrivial = true; ctx.label("nt:T~1"); }
       if (ctx.want_desc && first_desc) ctx.desc << ", \"T\": " << g17(Tq) << ", \"g\": " << g17(g);
       // identity map
-      VCHECK(ctx, same_bits(im.toTime(Tq), Tq) && same_bits(im.toTau(Tq), Tq) && same_bits(im.toTime(tau), tau) &&
-                      same_bits(im.backward(tau, Tq, g), g),
-             "identity-map", "IdentityTimeMap does not pass values/gradients through unchanged");
+      // every value (also zero / negative "durations", which the identity map does not restrict) and every gradient passes through
+      VCHECK(ctx, same_bits(im.toTime(Tq), Tq) && same_bits(im.toTau(Tq), Tq) && same_bits(im.toTime(tau), tau) && same_bits(im.toTau(tau), tau) &&
+                      same_bits(im.backward(tau, Tq, g), g) && same_bits(im.backward(tau, tau, g), g) && same_bits(im.backward(-Tq, -Tq, std::fabs(g)), std::fabs(g)) &&
+                      same_bits(im.backward(0.0, 0.0, g), g) && same_bits(im.backward(tau, -Tq, -g), -g),
+             "identity-map", "IdentityTimeMap does not pass values/gradients through unchanged (tau=" << g17(tau) << ", T=" << g17(Tq) << ", g=" << g17(g) << ")");
     }
     first_desc = false;
   }
